@@ -91,11 +91,12 @@ CHECKS['C20'] = dict(
           'evaluation (decide +kernel) over the numeral tables generated from the source. The model is compared with '
           'the implementation on boundary and random serials (thorough: every serial on 16 workers), overflowing DATE '
           'arguments, all binary values, sampled octal/hex values (with places -1..11, as numbers and as the 1x1 arrays a cell reference delivers), malformed digit strings and all ROMAN arguments; '
-          'dates are additionally compared with CPython datetime. TIME/HOUR/MINUTE/SECOND are floating point: they '
-          'are enumerated on the implementation (every 7th second quick, all 86400 thorough), which is a test, not a proof.'),
+          'dates are additionally compared with CPython datetime. TIME/HOUR/MINUTE/SECOND: time_roundtrip_exact / time_roundtrip_overflow / time_wraps '
+          'prove the inversion for every second of the day (and for overflowing components) of the exact-rational model of xtime/_n2time (hmsOfTime, common denominator 864e8, omega); '
+          'the floating-point code is enumerated (every 7th second quick, all 86400 thorough, plus random overflowing components) and compared with that model (command hms) - the enumeration is a test, not a proof.'),
     design='DESIGN.md §3 C20',
     note=COMMON_NOTE + 'datetime/calendar are external: modelled by a concrete proleptic-Gregorian pair and tied by '
-         'correspondence. The TIME sub-claim is partial (enumeration only). Python recursion depth of _date is '
+         'correspondence. The TIME sub-claim is proved for exact rationals only; IEEE rounding of the real code is enumerated, not proved. Python recursion depth of _date is '
          'modelled by a fuel constant (overflowing days beyond ~900 months are #VALUE! in both).',
     technique='Lean 4 proof (omega, induction, decide +kernel over generated tables) + differential correspondence check')
 
